@@ -1,7 +1,165 @@
-(* C15 placeholder while the proofs are being written *)
-From Coq Require Import NArith List.
-Require Import Bytes AES TS35206 Milenage.
+(* C15 — the in-repo Milenage library implements TS 35.206 and accepts exactly valid AUTNs.
+   Statements only; proofs live in Proofs/MilenageProofs.v.  E is ANY function from a key and a block to
+   16 octets (AES-128 in TS 35.206's example algorithm set; Crypto/AES.v when executed). *)
+From Coq Require Import NArith ZArith List Bool.
+Require Import Bytes BytesLemmas AES TS35206 Milenage MilenageProofs.
 Import ListNotations.
 Open Scope N_scope.
-Example c15_set1_model : F2345 aes128 opc1 k1 rnd1 = MOk (f2345_core aes128 opc1 k1 rnd1).
-Proof. reflexivity. Qed.
+
+Definition cipher16 (E:bytes -> bytes -> bytes) : Prop := forall k x, length (E k x) = 16%nat.
+Definition cipher_octets (E:bytes -> bytes -> bytes) : Prop := forall k x, bytes_ok (E k x) = true.
+
+(* f2, f3, f4, f5, f5* (exported F2345; the byte-index loops dst[(i+r)%16] are the rotations by r2..r5) *)
+Theorem c15_f2345_is_ts35206 :
+  forall E, cipher16 E -> forall opc k rand, length opc = 16%nat -> length k = 16%nat -> length rand = 16%nat ->
+  F2345 E opc k rand = MOk {| m_res := f2 E k opc rand; m_ck := f3 E k opc rand; m_ik := f4 E k opc rand;
+                             m_ak := f5 E k opc rand; m_aks := f5s E k opc rand |}.
+Proof. exact F2345_spec. Qed.
+Print Assumptions c15_f2345_is_ts35206.
+
+(* f1, f1* (exported F1) *)
+Theorem c15_f1_is_ts35206 :
+  forall E, cipher16 E -> forall opc k rand sqn amf, length opc = 16%nat -> length k = 16%nat -> length rand = 16%nat ->
+  length sqn = 6%nat -> length amf = 2%nat ->
+  F1 E opc k rand sqn amf = MOk (f1 E k opc rand sqn amf, f1s E k opc rand sqn amf).
+Proof. exact F1_spec. Qed.
+Print Assumptions c15_f1_is_ts35206.
+
+(* OPc *)
+Theorem c15_opc_is_ts35206 :
+  forall E, cipher16 E -> forall k op, length k = 16%nat -> length op = 16%nat -> GenerateOPC E k op = MOk (opc_of E k op).
+Proof. exact GenerateOPC_spec. Qed.
+Print Assumptions c15_opc_is_ts35206.
+
+(* os_memcmp over 6 octets (as coded after commit 020149a) is the order of the 48-bit big-endian numbers *)
+Theorem c15_memcmp_lex :
+  forall a b, length a = 6%nat -> length b = 6%nat -> bytes_ok a = true -> bytes_ok b = true ->
+  exists c, os_memcmp a b 6 = Some c /\ ((c <= 0)%Z <-> be_to_N a <= be_to_N b) /\ (c = 0%Z <-> a = b).
+Proof. exact memcmp_lex. Qed.
+Print Assumptions c15_memcmp_lex.
+
+(* MilenageGenerate builds the TS 33.102 6.3.2 AUTN and vector *)
+Theorem c15_generate_is_ts33102 :
+  forall E, cipher16 E -> forall opc amf k sqn rand res_len,
+  length opc = 16%nat -> length k = 16%nat -> length rand = 16%nat -> length sqn = 6%nat -> length amf = 2%nat -> 8 <= res_len ->
+  MilenageGenerate E opc amf k sqn rand res_len =
+  GenOk (autn E k opc rand sqn amf) (f4 E k opc rand) (f3 E k opc rand) (f5 E k opc rand) (f2 E k opc rand).
+Proof. exact generate_spec. Qed.
+Print Assumptions c15_generate_is_ts33102.
+
+(* check_iff: Milenage_check returns 0 (always together with RES/CK/IK = f2/f3/f4) iff MAC-A is exactly f1 over the
+   concealed SQN and the AMF and that SQN is greater than the UE's; -2 iff it is not greater *)
+Theorem c15_check_iff :
+  forall E, cipher16 E -> cipher_octets E -> forall opc k sqn rand a,
+  length opc = 16%nat -> length k = 16%nat -> length rand = 16%nat -> length sqn = 6%nat -> length a = 16%nat ->
+  bytes_ok opc = true -> bytes_ok sqn = true -> bytes_ok a = true ->
+  exists rc t, Milenage_check E opc k sqn rand a = CheckRet rc (f2 E k opc rand) (f3 E k opc rand) (f4 E k opc rand) t /\
+    (rc = 0 \/ rc = -1 \/ rc = -2)%Z /\
+    (rc = 0%Z <-> (f1 E k opc rand (autn_sqn E k opc rand a) (autn_amf a) = autn_mac a /\
+                   sqn_val sqn < sqn_val (autn_sqn E k opc rand a))) /\
+    (rc = (-2)%Z <-> sqn_val (autn_sqn E k opc rand a) <= sqn_val sqn).
+Proof. exact check_iff. Qed.
+Print Assumptions c15_check_iff.
+
+(* the same against the TS 33.102 6.3.3 USIM procedure *)
+Theorem c15_check_accepts_iff_usim :
+  forall E, cipher16 E -> cipher_octets E -> forall opc k sqn rand a,
+  length opc = 16%nat -> length k = 16%nat -> length rand = 16%nat -> length sqn = 6%nat -> length a = 16%nat ->
+  bytes_ok opc = true -> bytes_ok sqn = true -> bytes_ok a = true ->
+  (exists t, Milenage_check E opc k sqn rand a = CheckRet 0 (f2 E k opc rand) (f3 E k opc rand) (f4 E k opc rand) t)
+  <-> usim_check E k opc rand a sqn = Accept (f2 E k opc rand) (f3 E k opc rand) (f4 E k opc rand).
+Proof. exact check_accepts_iff_usim. Qed.
+Print Assumptions c15_check_accepts_iff_usim.
+
+(* resync: a not-greater SQN yields -2 and the TS 33.102 AUTS of the UE's SQN, which Milenage_auts (and the
+   specification's network-side check) accepts, returning the UE's SQN *)
+Theorem c15_resync :
+  forall E, cipher16 E -> cipher_octets E -> forall opc k sqn rand a,
+  length opc = 16%nat -> length k = 16%nat -> length rand = 16%nat -> length sqn = 6%nat -> length a = 16%nat ->
+  bytes_ok opc = true -> bytes_ok sqn = true -> bytes_ok a = true ->
+  sqn_val (autn_sqn E k opc rand a) <= sqn_val sqn ->
+  exists t, Milenage_check E opc k sqn rand a = CheckRet (-2) (f2 E k opc rand) (f3 E k opc rand) (f4 E k opc rand) (Some t) /\
+    t = auts E k opc rand sqn /\ length t = 14%nat /\
+    Milenage_auts E opc k rand t = AutsRet 0 sqn /\ auts_check E k opc rand t = Some sqn.
+Proof. exact resync. Qed.
+Print Assumptions c15_resync.
+
+(* Milenage_auts is the TS 33.102 6.3.5 check for every 14-octet token: 0 and SQN_MS iff MAC-S verifies *)
+Theorem c15_auts_is_ts33102 :
+  forall E, cipher16 E -> forall opc k rand t,
+  length opc = 16%nat -> length k = 16%nat -> length rand = 16%nat -> length t = 14%nat ->
+  Milenage_auts E opc k rand t =
+  match auts_check E k opc rand t with
+  | Some s => AutsRet 0 s
+  | None => AutsRet (-1) (xor_bytes (firstn 6 t) (f5s E k opc rand))
+  end.
+Proof. exact auts_char. Qed.
+Print Assumptions c15_auts_is_ts33102.
+
+(* generation and checking are inverse *)
+Theorem c15_generate_check_inverse :
+  forall E, cipher16 E -> cipher_octets E -> forall opc amf k sqn rand sqn_ue,
+  length opc = 16%nat -> length k = 16%nat -> length rand = 16%nat -> length sqn = 6%nat -> length amf = 2%nat ->
+  length sqn_ue = 6%nat -> bytes_ok opc = true -> bytes_ok sqn = true -> bytes_ok amf = true -> bytes_ok sqn_ue = true ->
+  exists autn ik ck ak res, MilenageGenerate E opc amf k sqn rand 8 = GenOk autn ik ck ak res /\
+    autn = TS35206.autn E k opc rand sqn amf /\
+    (sqn_val sqn_ue < sqn_val sqn -> Milenage_check E opc k sqn_ue rand autn = CheckRet 0 res ck ik None) /\
+    (sqn_val sqn <= sqn_val sqn_ue -> exists t, Milenage_check E opc k sqn_ue rand autn = CheckRet (-2) res ck ik (Some t)).
+Proof. exact generate_check_inverse. Qed.
+Print Assumptions c15_generate_check_inverse.
+
+(* NOT satisfied by the code: reporting the TS 33.102 failure class.  The full statement would be
+     forall ..., usim_check E k opc rand a sqn = MacFailure -> exists t, Milenage_check E opc k sqn rand a = CheckRet (-1) .. t
+   The code tests the SQN before MAC-A, so a stale AUTN with a wrong MAC gets -2 and an AUTS instead of a MAC failure. *)
+Theorem c15_failure_class_refuted :
+  exists opc k sqn rand a,
+    length opc = 16%nat /\ length k = 16%nat /\ length rand = 16%nat /\ length sqn = 6%nat /\ length a = 16%nat /\
+    usim_check aes128 k opc rand a sqn = MacFailure /\
+    Milenage_check aes128 opc k sqn rand a
+    = CheckRet (-2) (f2 aes128 k opc rand) (f3 aes128 k opc rand) (f4 aes128 k opc rand) (Some (auts aes128 k opc rand sqn)).
+Proof.
+  destruct failure_class_refuted_witness as [W1 W2].
+  exists opc1, k1, sqn1, rnd1, bad_autn1. do 5 (split; [reflexivity|]). split; [exact W1|exact W2].
+Qed.
+Print Assumptions c15_failure_class_refuted.
+
+(* ---- non-vacuity.  aes128 made total on arbitrary lists satisfies both hypotheses about E, coincides with
+   aes128 on TS 35.208 test set 1 (and on the shipped config.yaml key), where every hypothesis of the theorems
+   above holds and the conclusions are the published values. *)
+Definition aes128_16 (k x:bytes) : bytes :=
+  let y := aes128 k x in if Nat.eqb (length y) 16 && bytes_ok y then y else repeat 0 16.
+Example c15_aes_is_cipher16 : cipher16 aes128_16 /\ cipher_octets aes128_16.
+Proof.
+  split; intros k x; unfold aes128_16; generalize (aes128 k x); intro y;
+    destruct (Nat.eqb (length y) 16 && bytes_ok y) eqn:H.
+  - apply andb_true_iff in H. destruct H as [H1 H2]. apply Nat.eqb_eq. exact H1.
+  - reflexivity.
+  - apply andb_true_iff in H. destruct H as [H1 H2]. exact H2.
+  - reflexivity.
+Qed.
+Example c15_hypotheses_met_set1 :
+  length opc1 = 16%nat /\ length k1 = 16%nat /\ length rnd1 = 16%nat /\ length sqn1 = 6%nat /\ length amf1 = 2%nat /\
+  bytes_ok opc1 = true /\ bytes_ok sqn1 = true /\ bytes_ok amf1 = true /\ bytes_ok sqn1_minus1 = true /\
+  sqn_val sqn1_minus1 < sqn_val sqn1 /\
+  MilenageGenerate aes128_16 opc1 amf1 k1 sqn1 rnd1 8
+  = GenOk [85;243;40;180;53;119;185;185;74;159;250;195;84;223;175;179]
+          [247;105;188;215;81;4;70;4;18;118;114;113;28;109;52;65] [180;11;169;163;197;139;42;5;187;240;217;135;178;27;248;203]
+          [170;104;156;100;131;112] [165;66;17;213;227;186;80;191] /\
+  Milenage_check aes128_16 opc1 k1 sqn1_minus1 rnd1 [85;243;40;180;53;119;185;185;74;159;250;195;84;223;175;179]
+  = CheckRet 0 [165;66;17;213;227;186;80;191] [180;11;169;163;197;139;42;5;187;240;217;135;178;27;248;203]
+               [247;105;188;215;81;4;70;4;18;118;114;113;28;109;52;65] None /\
+  Milenage_check aes128_16 opc1 k1 sqn1 rnd1 [85;243;40;180;53;119;185;185;74;159;250;195;84;223;175;179]
+  = CheckRet (-2) [165;66;17;213;227;186;80;191] [180;11;169;163;197;139;42;5;187;240;217;135;178;27;248;203]
+             [247;105;188;215;81;4;70;4;18;118;114;113;28;109;52;65] (Some (auts aes128_16 k1 opc1 rnd1 sqn1)) /\
+  Milenage_auts aes128_16 opc1 k1 rnd1 (auts aes128_16 k1 opc1 rnd1 sqn1) = AutsRet 0 sqn1.
+Proof. vm_compute. repeat split; reflexivity. Qed.
+(* shipped src/config.yaml: K = 465B5CE8..., OPc = E8ED289D...; first-octet MAC corruption (the defect repaired by
+   commit 020149a) is rejected, as is every other single-octet corruption by c15_check_iff *)
+Definition opc_conf : bytes := [232;237;40;157;235;169;82;228;40;59;84;232;142;97;131;202].
+Example c15_config_yaml_first_mac_octet :
+  let a := autn aes128_16 k1 opc_conf rnd1 sqn1 amf1 in
+  Milenage_check aes128_16 opc_conf k1 sqn1_minus1 rnd1 a
+  = CheckRet 0 (f2 aes128_16 k1 opc_conf rnd1) (f3 aes128_16 k1 opc_conf rnd1) (f4 aes128_16 k1 opc_conf rnd1) None /\
+  Milenage_check aes128_16 opc_conf k1 sqn1_minus1 rnd1 (firstn 8 a ++ [N.lxor (nth 8 a 0) 1] ++ skipn 9 a)
+  = CheckRet (-1) (f2 aes128_16 k1 opc_conf rnd1) (f3 aes128_16 k1 opc_conf rnd1) (f4 aes128_16 k1 opc_conf rnd1) None.
+Proof. vm_compute. split; reflexivity. Qed.
